@@ -31,8 +31,7 @@ bmeth = z3.Function("C10.bound_metrics", Val, Val)
 
 class _Rec(_Scope):
     props = ("C10",)
-    trusted = ("T-COLL (dict get/set/copy/values, chain.from_iterable)", "T-CV", "S5 (State instances are truthy: user "
-               "state classes define neither __bool__ nor __len__)")
+    trusted = ("T-COLL (dict get/set/copy/values, chain.from_iterable)", "T-CV")
     assumptions = ("merge functions are arbitrary: they return any value or raise any exception",)
 
     def sym_metrics_scope(self, it):
@@ -45,10 +44,9 @@ class _Rec(_Scope):
         st.declare_class(d, "dict")
         p = dict_parts(it, d)
         st.assume(p["lo"] <= p["hi"])
-        # stored metrics are State instances (truthy objects), keyed by their exact type
+        # stored metrics are State instances (objects of arbitrary truthiness: a metric class may define __bool__/__len__), keyed by their exact type
         st.assume(QFact(lambda k: z3.Implies(z3.Select(p["has"], k),
                                              z3.And(V.is_ref(z3.Select(p["val"], k)),
-                                                    L.truthy_ref(V.addr(z3.Select(p["val"], k))),
                                                     p["lo"] <= z3.Select(p["pos"], k), z3.Select(p["pos"], k) < p["hi"],
                                                     z3.Select(p["keys"], z3.Select(p["pos"], k)) == k)),
                         sort=Val, pattern=lambda k: z3.Select(p["has"], k), name="m1"))
@@ -83,7 +81,6 @@ class Record(_Rec):
         o, d, p = self.sym_metrics_scope(it)
         self.d, self.p0 = d, p
         self.metric = fresh_input_ref(it, "metric")
-        st.assume(L.truthy_ref(V.addr(self.metric)))
         self.merge = self.mk_merge(it)
         self.T = V.VCls(V.type_of(self.metric, it.ct))
         st.instantiate_at(self.T)
@@ -371,4 +368,6 @@ class ContextRecord(_Rec):
         st.check("canary", z3.BoolVal(False), kind="canary")
 
 
-CONTRACTS = [Record(), Read(), Metrics(), MergeStep(), ContextRecord()]
+from .C02 import AsyncScope as _AsyncScope, variant as _variant      # noqa: E402
+
+CONTRACTS = [Record(), Read(), Metrics(), MergeStep(), ContextRecord(), _variant(_AsyncScope, "C10", ("C10-",))]
